@@ -78,6 +78,16 @@ int main(int argc, char** argv) {
     if (i % 9 == 4 && n > 1) n -= 1 + vh_randn(n < 6 ? n - 1 : 5);     /* ends inside an item */
     if (i % 13 == 5) s[n++] = 0x1c;                                    /* reserved byte: ERROR stops the client */
     if (i % 17 == 6) { static const unsigned char big[] = {0x5b, 0xff, 0xff, 0xff, 0xff, 0xff, 0xff, 0xff, 0xff, 1, 2, 3}; memcpy(s + n, big, sizeof big); n += sizeof big; }
+    if (i % 5 == 2) {
+      /* the stream ends with a definite string that declares a length around a power of two / near the top of its width (never satisfied) */
+      static const uint64_t lens4[] = {0xFFFFFFFFull, 0xFFFFFFFEull, 0xFFFFFFFDull, 0xFFFFFFFCull, 0xFFFFFFFBull, 0xFFFFFFF7ull, 0xFFFFFFF0ull, 0x80000000ull, 0x7FFFFFFFull, 0x7FFFFFFBull, 0x01000000ull, 0x00010000ull};
+      static const uint64_t lens8[] = {~0ull, ~0ull - 1, ~0ull - 4, ~0ull - 8, ~0ull - 9, ~0ull - 10, ~0ull - 16, 0x8000000000000000ull, 0x7FFFFFFFFFFFFFFFull, 0x7FFFFFFFFFFFFFF7ull, 0x100000000ull, 0xFFFFFFFFull, 0x100000001ull, 0x0000000100000000ull - 5, 0x00000001FFFFFFFFull, 0xFFFFFFFF00000000ull};
+      int w8 = (int)vh_randn(2);
+      uint64_t v = w8 ? lens8[vh_randn(sizeof lens8 / sizeof *lens8)] : lens4[vh_randn(sizeof lens4 / sizeof *lens4)];
+      s[n++] = (unsigned char)((vh_randn(2) ? 0x40 : 0x60) | (w8 ? 27 : 26));
+      for (int b = (w8 ? 7 : 3); b >= 0; b--) s[n++] = (unsigned char)(v >> (8 * b));
+      for (size_t extra = vh_randn(13); extra > 0; extra--) s[n++] = (unsigned char)vh_rand();
+    }
     /* all at once */
     cuts[0] = n;
     run_client(s, n, cuts, 1);
